@@ -323,6 +323,8 @@ func h20Shape(shape int) (parts []h20Part, reject bool) {
 			content = append(content, "BenchmarkM 1 5 ns/op\n"...)
 		}
 		parts = []h20Part{{"file", "many.txt", content}}
+	case 13: // a label added between two results of one benchmark: two records, the second carries it
+		parts = []h20Part{{"file", "add.txt", []byte("key: k\nBenchmarkS 1 5 ns/op\nnote: x\nBenchmarkS 1 6 ns/op\n")}}
 	default:
 		panic("h20: no such shape")
 	}
@@ -513,6 +515,14 @@ func H20Upload() {
 		vndAssert(n == 1, "every_record_carries_its_name_label_once")
 	}
 	vndAssert(got == wantContent, "every_benchmark_line_of_every_file_is_queryable_exactly_once_in_order")
+	if shape == 13 {
+		vndAssert(len(newRecs) == 2, "a_result_with_an_added_label_is_a_record_of_its_own")
+		if len(newRecs) == 2 {
+			_, n0 := e.st.LabelOf(id, newRecs[0].ID, "note")
+			v1, n1 := e.st.LabelOf(id, newRecs[1].ID, "note")
+			vndAssert(n0 == 0 && n1 == 1 && v1 == "x", "record_carries_the_file_configuration_in_force")
+		}
+	}
 	if shape == 12 {
 		// every result has its own label value: one record each, carrying that value
 		want := strings.Count(wantContent, "\n")
@@ -527,7 +537,7 @@ func H20Upload() {
 	}
 	// consecutive results with identical labels are one record: per file 1 or 2 records
 	for pi, p := range parts {
-		if p.form != "file" || len(p.content) < 40 || shape == 12 {
+		if p.form != "file" || len(p.content) < 40 || shape == 12 || shape == 13 {
 			continue
 		}
 		partID := id + "/" + string([]byte{'0' + byte(pi)})
